@@ -4,7 +4,7 @@
    (BC / B elements, 65536 / 256 when the counter starts at 0, overlapping ranges, final PC) is checked in the
    correspondence run by executing the real code to completion (up to 65,536 Steps) against the extracted model and,
    when something breaks, against a direct functional specification of the whole operation (checks/c09.py). *)
-From Z80V Require Import Proofs.SpecFacts Proofs.Block Proofs.Iter.
+From Z80V Require Import Proofs.SpecFacts Proofs.Block Proofs.Iter Proofs.BlockFacts.
 
 Theorem C09_tie : forall cpu, WF cpu -> Step cpu = spec_step impl_unspec cpu.
 Proof. exact Step_ok. Qed.
@@ -156,3 +156,19 @@ Proof.
   repeat split; try assumption. intros k Hk. rewrite iter_ok by exact H. apply G, Hk.
 Qed.
 Print Assumptions C09_inir_indr_whole_operation.
+
+(* ---- what the sequential copy computes (LDIR, no wrap-around): nothing outside the destination range changes; when the
+   destination starts at or below the source, or beyond its end, it receives the ORIGINAL source bytes (a block move);
+   with DE = HL+1 the first byte is replicated (the fill idiom) -- overlapping ranges are copied byte by byte ---- *)
+Theorem C09_copy_outside : forall n r hl de x, 0 <= de -> de + Z.of_nat n <= 65536 -> 0 <= hl -> hl + Z.of_nat n <= 65536 ->
+  (x < de \/ de + Z.of_nat n <= x) -> copy false n r hl de x = r x.
+Proof. exact copy_outside. Qed.
+Print Assumptions C09_copy_outside.
+Theorem C09_copy_is_a_move : forall n r hl de k, 0 <= de -> de + Z.of_nat n <= 65536 -> 0 <= hl -> hl + Z.of_nat n <= 65536 ->
+  (de <= hl \/ hl + Z.of_nat n <= de) -> 0 <= k < Z.of_nat n -> copy false n r hl de (de + k) = u8 (r (hl + k)).
+Proof. exact copy_move. Qed.
+Print Assumptions C09_copy_is_a_move.
+Theorem C09_overlap_fills : forall n r hl k, 0 <= hl -> hl + 1 + Z.of_nat n <= 65536 -> 0 <= k < Z.of_nat n ->
+  copy false n r hl (hl + 1) (hl + 1 + k) = u8 (r hl).
+Proof. exact copy_fill. Qed.
+Print Assumptions C09_overlap_fills.
